@@ -46,10 +46,11 @@ func TestVerifSim(t *testing.T) {
 			"commit.Coordinator (group commit, lanes, shards)", "engine.DB / engine.Batch", "Pebble v2.1.4 (WAL, memtable flushes, compactions, manifest, recovery)", "idempotency negative filter"},
 		Stub: []string{"disk: pebble vfs.NewCrashableMem behind a counting/cloning gate (crash = CrashClone with 100%/0%/~50% of unsynced data)",
 			"clients (tape-driven, one operation or one cross-channel group at a time)", "clock (synctest fake clock)"},
-		Rule: "One run = one synctest bubble, 2-5 channels of three flavours (typed ChannelLog API, compatibility API, exact-proposal API) sharing one engine; " +
-			"20-60 tape-chosen operations (C09: 2-7 mutations) with close/reopen of leases and of the whole database. " +
-			"Non-trivial: C07 = at least 8 successful mutations including a removal (truncate/trim/replace) and a full read-back after a reopen or lease reclamation (or a fault-free run with 15 mutations); " +
-			"C08 = at least one duplicate rejected and one fresh append accepted after it; C09 = at least one acknowledged mutation and at least 10 crash images checked in all three crash modes.",
+		Rule: "One run = one synctest bubble with one real message engine on a simulated disk, 1-5 channels of three flavours (typed ChannelLog API, compatibility ChannelStore API, exact-proposal API), " +
+			"a tape-driven history (C07/C08: 20-80 operations; C09: 2-7 steps) of appends, applies, truncations, trims, checkpoints, replacements, cleanups, cross-channel client groups, lease cycles and database reopens; one run in four has no reopen / lease reclamation / cache eviction. " +
+			"Non-trivial: C07 = a full read-back succeeded and (at least 8 successful mutations including a removal and a full read-back after a reopen or lease reclamation, or a fault-free run with at least 15 mutations); " +
+			"C08 = at least one duplicate was rejected and at least one fresh append was accepted after it; " +
+			"C09 = at least one acknowledged mutation and at least 10 crash images per crash mode (process kill, power loss, torn) examined (a crash-free control run counts with 8 mutations and a full read-back).",
 		Assumptions: []string{"testing/synctest fake clock and quiescence (go1.26.8)",
 			"pebble vfs.MemFS crash-clone semantics model the disk: synced data survives, unsynced 4 KiB blocks and directory entries survive independently with the chosen probability",
 			"the Pebble options of the repo are kept except: file system, memtable size, block cache size, L0 compaction threshold, table-stats collection and read sampling disabled, silent logger",
@@ -146,6 +147,19 @@ func drawStoreCfg(r *simkit.Run) cfg {
 		c.Alphabet = 2 + tp.Intn(3)
 		c.Saturate = tp.Intn(6) == 1
 		c.BigPayload = 0
+		if c.Saturate {
+			// few channels and a longer history so that one channel's negative
+			// filter (384 primary slots) really saturates and is then probed
+			c.Channels = 1 + tp.Intn(2)
+			c.Flavours = c.Flavours[:c.Channels]
+			for i := range c.Flavours {
+				if c.Flavours[i] == flExact {
+					c.Flavours[i] = flCompat
+				}
+			}
+			c.Ops = 50 + tp.Intn(30)
+			c.Collide = 3
+		}
 	case "C09":
 		c.Ops = 2 + tp.Intn(6)
 		if r.Tier == "thorough" {
@@ -158,10 +172,10 @@ func drawStoreCfg(r *simkit.Run) cfg {
 		c.CrashOpen = tp.Intn(8) == 1
 		c.TornPct = 30 + tp.Intn(41)
 		c.CheckEvery = 1 << 30
-		c.MemTable = []int{32 << 10, 64 << 10, 1 << 20}[tp.Intn(3)]
-		if c.BigPayload == 0 {
-			c.BigPayload = 1
-		}
+		// small memtables and large rows: flushes, manifest edits and compactions
+		// must fall inside the 2-7 steps whose disk calls are enumerated
+		c.MemTable = []int{32 << 10, 16 << 10, 256 << 10}[tp.Intn(3)]
+		c.BigPayload = 1 + tp.Intn(2)*3
 	}
 	if c.NoFaults {
 		c.Warm = 8192
@@ -192,6 +206,7 @@ type world struct {
 	nextID   uint64
 	avoidIDs map[uint64]bool // ids already used by another channel of the current call / group
 	bulk     bool            // generating a bulk append of distinct keys (filter saturation)
+	forceBulk bool
 	liveIDs  map[uint64]idLoc
 	graveIDs []uint64
 	cmdSeq   uint64
@@ -439,6 +454,10 @@ func (w *world) run() {
 		if es := w.takeBgErrs(); len(es) > 0 {
 			w.r.Infra("pebble background error on the primary: %v", es)
 			return
+		}
+		for _, c := range w.chans {
+			st := c.st()
+			w.r.State(c.fl, len(st.rows), st.leo-st.lastRowSeq(), st.hasRet, st.hwOr0(), len(st.props), len(st.hist))
 		}
 		if w.stop() {
 			break
